@@ -12,6 +12,13 @@ The judge keeps its own books from what an implementation *reported* (results of
 futures became resolved, the public counters `available` / `waiters`, which process resumed at
 which clock value) and never looks at a model state:
 
+The capacity is not fixed: `set_capacity` (the `ReduceCapacity` fault) may lower it below the amount
+currently held.  The judge follows the capacity from the observed `set_capacity` calls and restates
+the bounds for a varying limit: `held + available = capacity` exactly, at every observation
+(`available` is negative while over-committed); a release never raises; nothing is granted — neither
+immediately nor by a wake-up — while the held amount exceeds the capacity; waiters are woken FIFO
+when the capacity grows; the head of the line never waits while it fits.
+
 * `held`     grants reported and not yet reported released,
 * `blocked`  acquirers reported queued and not yet reported woken, in arrival order,
 * `resolved` futures reported resolved whose process has not yet been seen resuming (engine runs).
@@ -22,6 +29,7 @@ inductive OKind
   | acq (id : Nat) (amount : Int)
   | try_ (id : Nat) (amount : Int)
   | rel (id : Nat)
+  | setcap (c : Int)               -- `set_capacity(c)`
   | got (id : Nat) (spins : Nat)   -- process of call `id` resumed; `spins` = deliveries it consumed while blocked
   | hang (id : Nat)                -- watchdog: the process of call `id` was resumed again and again at one clock value
   | fin                            -- the run went quiescent
@@ -34,6 +42,7 @@ structure Obs where
   woke : List Nat := []
   avail : Int := 0
   nwait : Nat := 0
+  capv : Option Int := none        -- the public `capacity` property, when the transcript carries it
 deriving Repr
 
 structure Book where
@@ -42,15 +51,33 @@ structure Book where
   resolved : List (Nat × Nat) := []
 deriving Repr
 
-/-- the public counters agree with the books; bounds; the head of the line does not fit -/
+/-- did this observation hand out capacity (an immediate grant or a wake-up)? -/
+def Obs.grants (o : Obs) : Bool :=
+  match o.k with
+  | .acq _ _ | .try_ _ _ => o.res == .granted
+  | .rel _ | .setcap _ => !o.woke.isEmpty
+  | _ => false
+
+/-- The public counters agree with the books, for the capacity `cap` in force *after* the
+    observation.  The capacity may have been lowered below the amount held (`set_capacity`): the
+    resource is then over-committed, `available` is negative by exactly the excess, and that state
+    may persist — but nothing may be *granted* while it lasts, so an observation that handed out
+    capacity must leave `held ≤ capacity`.  Without `set_capacity` this is the plain bound. -/
 def checkCounters (cap : Int) (b : Book) (o : Obs) : Option String :=
-  if cap < amtSum b.held then some "resource/held/exceeds-capacity"
-  else if o.avail < 0 ∨ cap < o.avail then some "resource/available/out-of-range"
+  if o.grants && decide (cap < amtSum b.held) then some "resource/held/exceeds-capacity"
+  else if cap < o.avail then some "resource/available/out-of-range"
   else if amtSum b.held + o.avail ≠ cap then some "resource/conservation/held-plus-available"
   else if o.nwait ≠ b.blocked.length then some "resource/waiters/count-mismatch"
+  else if o.capv.isSome ∧ o.capv ≠ some cap then some "resource/capacity/not-the-value-set"
   else match b.blocked with
     | [] => none
     | w :: _ => if w.2 ≤ cap - amtSum b.held then some "resource/head/grantable-but-blocked" else none
+
+/-- the capacity in force after an observation -/
+def capAfter (cap : Int) (o : Obs) : Int :=
+  match o.k, o.res with
+  | .setcap c, .resized => c
+  | _, _ => cap
 
 def validAmount (cap amount : Int) : Bool := 0 < amount && amount ≤ cap
 
@@ -100,6 +127,23 @@ def Book.apply (cap : Int) (engine : Bool) (b : Book) (o : Obs) : Except String 
         else .ok { held := eraseHeld id b.held ++ woken, blocked := b.blocked.drop n,
                    resolved := if engine then b.resolved ++ o.woke.map (fun i => (i, o.t)) else b.resolved }
     | _ => .error "resource/release/raised"
+  | .setcap c =>
+    match o.res with
+    | .err =>
+      if 0 < c then .error "resource/set-capacity/rejected-valid-value"
+      else if !o.woke.isEmpty then .error "resource/set-capacity/rejected-but-woke-someone"
+      else .ok b
+    | .resized =>
+      if c ≤ 0 then .error "resource/set-capacity/accepted-bad-value"
+      else
+        let n := o.woke.length
+        let woken := b.blocked.take n
+        if woken.map (·.1) ≠ o.woke then
+          (if o.woke.all (fun i => (b.blocked.map (·.1)).contains i)
+           then .error "resource/fifo/out-of-order" else .error "resource/grant/not-waiting")
+        else .ok { held := b.held ++ woken, blocked := b.blocked.drop n,
+                   resolved := if engine then b.resolved ++ o.woke.map (fun i => (i, o.t)) else b.resolved }
+    | _ => .error "resource/set-capacity/unknown-result"
   | .got id spins =>
     match b.resolved.find? (·.1 == id) with
     | none => .error "resource/grant/resumed-without-grant"
@@ -118,9 +162,9 @@ def judge (cap : Int) (engine : Bool) : Book → List Obs → Option String
     match b.apply cap engine o with
     | .error sig => some sig
     | .ok b' =>
-      match checkCounters cap b' o with
+      match checkCounters (capAfter cap o) b' o with
       | some sig => some sig
-      | none => judge cap engine b' os
+      | none => judge (capAfter cap o) engine b' os
 
 /-- what the *model* reports for an operation, as an observation -/
 def obsOf (o : Op) (out : Out) (s' : St) : Obs :=
@@ -129,7 +173,8 @@ def obsOf (o : Op) (out : Out) (s' : St) : Obs :=
       | .acquire id a => .acq id a
       | .tryAcquire id a => .try_ id a
       | .release id => .rel id
-    res := out.res, woke := out.woke, avail := s'.avail, nwait := s'.waiters.length }
+      | .setCapacity c => .setcap c
+    res := out.res, woke := out.woke, avail := s'.avail, nwait := s'.waiters.length, capv := some s'.cap }
 
 /-- the model's observable trace -/
 def obsTrace (s : St) : List Op → List Obs
